@@ -67,8 +67,15 @@ fn text_ok(txt: &str, radix: u32, upper: bool) -> Result<(), String> {
     if std::str::from_utf8(txt.as_bytes()).is_err() {
         return Err("not valid UTF-8".into());
     }
-    if !txt.is_ascii() {
+    if radix != u32::MAX && !txt.is_ascii() {
         return Err("non-ASCII byte in produced text".into());
+    }
+    if radix == u32::MAX {
+        // formatted with a non-ASCII fill character: still valid UTF-8 (checked above), everything else ASCII
+        if let Some(c) = txt.chars().find(|c| !c.is_ascii() && !"\u{2665}\u{e9}\u{2192}\u{1f600}".contains(*c)) {
+            return Err(format!("unexpected character {c:?}"));
+        }
+        return Ok(());
     }
     if radix == 0 {
         // formatted with flags: any of sign, prefix, fill, digits
